@@ -1,6 +1,6 @@
 (* C14 -- PCMCI <-> graph conversion preserves every link, its direction and its numbers. *)
 From Coq Require Import List Arith ZArith QArith Bool Permutation.
-From CE Require Import Model.GraphConv Proofs.GraphConvProofs.
+From CE Require Import Model.GraphConv Proofs.GraphConvProofs Proofs.GraphConvFold Proofs.GraphConvRoundtrip.
 Import ListNotations.
 Local Open Scope nat_scope.
 
@@ -42,6 +42,21 @@ Print Assumptions C14_graph_is_reordering_of_emitted_edges.
 Theorem C14_unknown_mark_raises : forall r bin level, has_unknown r = true -> to_graph r bin level = None.
 Proof. exact unknown_mark_raises. Qed.
 Print Assumptions C14_unknown_mark_raises.
+
+(* UNBOUNDED: for every number of nodes, every lag range and every consistent mark pattern (with arbitrary values),
+   PCMCI -> graph -> PCMCI reproduces mark, value and p at every entry that carries a link *)
+Theorem C14_pcmci_roundtrip_every_size : forall r, consistent r = true -> pcmci_roundtrip_ok r = true.
+Proof. exact pcmci_roundtrip. Qed.
+Print Assumptions C14_pcmci_roundtrip_every_size.
+
+(* networkx_to_pcmci, order-independently: writing ANY compatible edge list (duplicate-free keys; a symmetric link
+   excludes other links of its pair and is stored with equal numbers; '-->' and '-?>' not both on one ordered pair)
+   in ANY order yields the table determined by the SET of edges: '-->' / '-?>' / symmetric marks with the edge's
+   numbers at its own cell, '<--' at the empty mirror cell of a contemporaneous '-->' *)
+Theorem C14_written_table_is_determined_by_the_edge_set : forall n es, compat es ->
+  forall c, get (p_tab (to_pcmci n es)) c = expected es c.
+Proof. exact to_pcmci_characterised. Qed.
+Print Assumptions C14_written_table_is_determined_by_the_edge_set.
 
 (* both round trips, exhaustively for 2 nodes x lags {0,1} (the property's own exhaustive scope):
    all 46656 mark patterns, of which 1485 are consistent *)
